@@ -311,7 +311,7 @@ pub fn generate(thorough: bool, seed: u64, out: &mut dyn Write) {
     writeln!(out, "exlw 0 .").unwrap();
 
     // ---- random stream
-    let n = if thorough { 150_000 } else { 2_500 };
+    let n = if thorough { 600_000 } else { 4_000 };
     for i in 0..n {
         match i % 10 {
             0..=4 => {
